@@ -180,6 +180,28 @@ class Interp:
                     break
                 except _Continue:
                     continue
+        elif isinstance(s, ast.AsyncFor):
+            # evaluated like a plain loop: the model of an async source is the finite list of what it delivers
+            for v in self.eval(s.iter, env):
+                self.assign(s.target, v, env)
+                try:
+                    self.exec_block(s.body, env)
+                except _Break:
+                    break
+                except _Continue:
+                    continue
+            else:
+                self.exec_block(s.orelse, env)
+        elif isinstance(s, (ast.With, ast.AsyncWith)):
+            # a context manager is modelled by the value its expression evaluates to (entered value = `__enter__` of a Record if
+            # the rule gave one, else the value itself); exceptions are not suppressed
+            for it in s.items:
+                v = self.eval(it.context_expr, env)
+                if isinstance(v, Record) and "__enter__" in v.__dict__:
+                    v = self.apply(v.__dict__["__enter__"], [], {})
+                if it.optional_vars is not None:
+                    self.assign(it.optional_vars, v, env)
+            self.exec_block(s.body, env)
         elif isinstance(s, ast.Pass):
             return
         elif isinstance(s, ast.Break):
@@ -443,6 +465,21 @@ class Interp:
         out = {}
         self._comp(e.generators, env, lambda en: out.__setitem__(self.eval(e.key, en), self.eval(e.value, en)))
         return out
+
+    def e_Await(self, e, env):
+        return self.eval(e.value, env)
+
+    def e_Yield(self, e, env):
+        if not hasattr(self, "yielded"):
+            raise Unsupported("yield outside call_generator")
+        self.yielded.append(self.eval(e.value, env) if e.value is not None else None)
+        return None
+
+    def call_generator(self, fn: ast.AST, args: dict[str, Any]) -> list:
+        """Evaluate a (sync or async) generator function to exhaustion: the finite list of what it yields."""
+        self.yielded: list = []
+        self.call_function(fn, args)
+        return self.yielded
 
     def e_Lambda(self, e, env):
         return ("__lambda__", e, env)
